@@ -19,6 +19,7 @@ import (
 )
 
 type World struct {
+	roCache map[*types.Var][]string
 	Prog       *ssa.Program
 	Pkgs       []*packages.Package
 	Fset       *token.FileSet
